@@ -235,9 +235,9 @@ func fontWeights(fonts []*fontEntry) (cum []int) {
 	for _, fe := range fonts {
 		w := 2
 		if fe.rich.rich() {
-			w += 2 + fe.rich.score()/40
-			if w > 8 {
-				w = 8
+			w += 1 + fe.rich.score()/60
+			if w > 5 {
+				w = 5
 			}
 		}
 		total += w
